@@ -47,3 +47,50 @@ Example C12_example_deliverable :
 Proof. vm_compute. reflexivity. Qed.
 Goal True. idtac "ASSUMPTIONS-OF C12_example_deliverable". Abort.
 Print Assumptions C12_example_deliverable.
+
+(* THE WHOLE FILE.  A free-form source made of one-line statements, statements continued over any
+   number of lines (pieces free of quotes, '!', '&' and ';'; any blanks around the ampersands),
+   full-line comments with any indentation and empty lines -- any number of them in any order -- is
+   delivered by the reader as exactly one item per statement, in source order, each with the exact
+   numbers of its first and last physical line, label and construct name split off; comments and
+   empty lines come in place when comments are kept and are invisible when they are ignored; then
+   the reader reports the end of the input.  No bound on the number of lines.
+   (_partial: layouts with character literals, in-line comments, ';', fixed form, preprocessor
+   lines and sentinels are tied to this model by the correspondence, not by this theorem.) *)
+From FV Require Import ReaderJoin ReaderItem ReaderFile.
+Theorem C12_whole_file_each_statement_once_in_order_partial :
+  forall (ign : bool) (ls : list lay), Forall good ls ->
+    read_source (flat_map phys ls) true false ign = items ign ls 0.
+Proof. exact read_source_layouts. Qed.
+Goal True. idtac "ASSUMPTIONS-OF C12_whole_file_each_statement_once_in_order_partial". Abort.
+Print Assumptions C12_whole_file_each_statement_once_in_order_partial.
+
+(* the same from any line count, e.g. after a consumer has read part of the file *)
+Theorem C12_rest_of_file_each_statement_once_in_order_partial :
+  forall (ign : bool) (fuel : nat) (ls : list lay) (lc : nat), Forall good ls -> List.length ls < fuel ->
+    read_all fuel (ReaderJoin.st ign (flat_map phys ls) lc []) = items ign ls lc.
+Proof. exact read_all_layouts. Qed.
+Goal True. idtac "ASSUMPTIONS-OF C12_rest_of_file_each_statement_once_in_order_partial". Abort.
+Print Assumptions C12_rest_of_file_each_statement_once_in_order_partial.
+
+(* the hypotheses are satisfiable: a labelled, named statement over three lines, a comment, an empty
+   line and a one-line statement *)
+Definition ex_file : list lay :=
+  [LCont (s2t " 10 nm: x = a +&") (Some 10%N) (Some (s2t "nm")) (s2t "x = a +") [(s2t "   ", s2t " b *")] (s2t "  ") (s2t " c");
+   LCom (s2t "  ") (s2t " note"); LBlank;
+   LOne (s2t "  call s(1, 2)") None None (s2t "  call s(1, 2)")].
+Example C12_example_whole_file : Forall good ex_file /\
+  flat_map phys ex_file = [s2t " 10 nm: x = a +&"; s2t "   & b *&"; s2t "  & c"; s2t "  ! note"; []; s2t "  call s(1, 2)"] /\
+  items false ex_file 0 = [RLine (s2t "x = a + b * c") (Some 10%N) (Some (s2t "nm")) 1 3;
+                           RComment (s2t "! note") 4 4 false; RComment [] 5 5 false;
+                           RLine (s2t "call s(1, 2)") None None 6 6] /\
+  items true ex_file 0 = [RLine (s2t "x = a + b * c") (Some 10%N) (Some (s2t "nm")) 1 3;
+                          RLine (s2t "call s(1, 2)") None None 6 6].
+Proof.
+  split; [|split; [|split]]; try (vm_compute; reflexivity).
+  repeat constructor; try (vm_compute; reflexivity); try discriminate.
+  - eexists. split; vm_compute; reflexivity.
+  - eexists. split; vm_compute; reflexivity.
+Qed.
+Goal True. idtac "ASSUMPTIONS-OF C12_example_whole_file". Abort.
+Print Assumptions C12_example_whole_file.
